@@ -489,13 +489,17 @@ func (c *Client) Close() error {
 
 func (c *Client) reconnect(ctx context.Context) error {
 	// fmt.Println("Reconnecting")
-	if c.conn != nil {
-		_ = c.conn.Close()
-		c.conn = nil
+	if c.conn != nil && c.conn.closed.Load() {
+		// The client has been closed: it must not come back to life.
+		return net.ErrClosed
 	}
 	stream, err := c.dialer(ctx)
 	if err != nil {
+		// Keep the failed connection: Close() stays valid, and the next call dials again.
 		return err
+	}
+	if c.conn != nil {
+		_ = c.conn.Close()
 	}
 	c.conn = newConn(stream)
 	return nil
